@@ -40,7 +40,7 @@ def instances(tier):
 
     from nucs.examples.queens.queens_problem import QueensProblem
 
-    for n in range(1, (8 if q else 10) + 1):
+    for n in range(1, (9 if q else 10) + 1):
         add(name="queens-%d" % n, family="queens", make=lambda n=n: QueensProblem(n), validator=S.v_queens(n),
             count=S.QUEENS[n - 1], split=(4, 0) if n in (6, 8) else None)
     from nucs.problems.latin_square_problem import LatinSquareProblem, LatinSquareRCProblem
@@ -117,9 +117,9 @@ def instances(tier):
             cfgs=[dict(dom_heuristic_idx=H.DOM_HEURISTIC_MAX_VALUE)] + (generic[:2] if i else []))
     from nucs.problems.circuit_problem import CircuitProblem
 
-    for n in range(2, (7 if q else 8) + 1):
+    for n in range(2, (8 if q else 9) + 1):
         add(name="circuit-%d" % n, family="circuit", make=lambda n=n: CircuitProblem(n), validator=S.v_circuit(n),
-            count=S.count_circuits(n), cfgs=generic if n <= 6 else generic[:2])
+            count=S.count_circuits(n), cfgs=generic if n <= 6 else (generic[:3] if n <= 8 else generic[:1]))
     from nucs.examples.tsp.tsp_instances import TSP_INSTANCES
     from nucs.examples.tsp.tsp_problem import TSPProblem
 
